@@ -22,6 +22,7 @@ EXPLANATION = (
     "by composing the resolved terms. Violations are definite disagreements only; proven / undecided counts are reported. "
     "Elementwise safety is C02/V1; operators only after scalar() coercion, no re-interpreting views (V8); kernels are pure (K1)"
     "; every kernel returns the broadcast shape of its operand and never reduces over, indexes away or concatenates along its dimensions (V9 on the shape lattice)"
+    "; H10 / H8 - no kernel writes into what it is handed or returns cached storage; scalar() yields plain arrays (V8)"
 )
 ASSUMPTIONS = ["real arithmetic (rounding not modelled); degrees in [0,1]; the transcription of the documented formulas in HEDGES is faithful"]
 LEVEL_SCOPE = ("Decides the listed clauses for every order type (piece) over real arithmetic, reporting only definite disagreements; floating-point "
